@@ -363,7 +363,19 @@ class StepBudget:
                                   f'{os.path.basename(code.co_filename)}:{line}')
 
         mon.register_callback(cls.TOOL, mon.events.LINE, on_line)
+        cls.on_line = on_line
         cls.installed = True
+
+    @classmethod
+    def pause(cls):
+        """No line events for a bulk phase that is not budgeted (returns a
+        function that switches them on again)."""
+        if not cls.installed:
+            return lambda: None
+        mon = sys.monitoring
+        mon.register_callback(cls.TOOL, mon.events.LINE, None)
+        return lambda: mon.register_callback(cls.TOOL, mon.events.LINE,
+                                             cls.on_line)
 
 
 class budget:
